@@ -210,7 +210,7 @@ def generate(seed, tier, cfg):
                 kind = f.choice(("F5", "F6", "F6"))
             at = f.choice((0, 0, 1, 2, 3, 5, 8, 13, 40, 200))
             err = {"F1": f.choice((28, 13, 2, 21)), "F2": f.choice((28, 5)), "F3": 28, "F4": 0, "F5": f.choice((2, 13, 24)), "F6": 5, "F9": f.choice((0, 404, -1))}[kind]
-            faults.append({"kind": kind, "path": "*", "at": at if kind in ("F2", "F4", "F6") else 0, "errno": err, "op_index": oi})
+            faults.append({"kind": kind, "path": "*", "at": at if kind in ("F2", "F4", "F6") else 0, "errno": err, "op_index": oi, "frac": (round(f.random(), 3) if kind in ("F2", "F4", "F6") and f.random() < 0.5 else None)})
     return {
         "workload": asc,
         "ops": ops,
@@ -298,6 +298,7 @@ def execute(case, keep_log=False):
         res.violation("R2-peer-interpreter", "save", "independent reader failed on the written file: %s: %s" % (type(e).__name__, e), site="parse")
 
     fs = SimFS(chunk=kn["chunk"], short_reads=None)
+    fs.expect_transfer(len(ref_bytes), kn["bufsize"])
     g0 = None
     content = {}  # path -> "ref" (acknowledged reference content) | "unknown" | absent
     fault_by_op = {}
@@ -307,7 +308,7 @@ def execute(case, keep_log=False):
     with fs:
         g0 = G.fingerprint()
         for i, op in enumerate(case["ops"]):
-            fs.faults = [Fault(f["kind"], f["path"], f["at"], f["errno"]) for f in fault_by_op.get(i, [])]
+            fs.faults = [Fault(f["kind"], f["path"], f["at"], f["errno"], frac=f.get("frac")) for f in fault_by_op.get(i, [])]
             fs.inflight_points = []
             path = op["path"]
             outcome = None
